@@ -465,6 +465,35 @@ func run(cs vrt.Case) vrt.Obs {
 				cc.modes(sp.String(), sp.Bytes(), uint64(i+7*g), false, nil, []bool{(i+g)%2 == 0})
 			}
 		})
+		// Close calls lined up: four Writers filled independently, closed at the same moment (large inputs: the moment is long)
+		ar := vrt.Rand(p.Seed, "c07-aligned", p.Lo)
+		for round := 0; round < 12 && !o.Poisoned; round++ {
+			var ins [][]byte
+			for g := 0; g < 4; g++ {
+				sp := lzwork.RandomSpec(ar)
+				sp.Size = 20000 + sp.Size%60001
+				ins = append(ins, sp.Bytes())
+			}
+			crc := round%4 != 3
+			res := lzwork.CompressAligned(ins, crc)
+			for g, r := range res {
+				o.Evals++
+				lone := lzwork.Compress(ins[g], crc, nil)
+				switch {
+				case r.Panic != nil:
+					o.Violations = append(o.Violations, *r.Panic)
+				case !r.OK() || !lone.OK():
+					o.Violate("aligned-close:failed", "Writer %d of 4 closed at the same moment as the others: write error %q, Close %v", g, r.WriteErr, r.CloseErr)
+				case !bytes.Equal(r.Out, lone.Out):
+					o.Violate("aligned-close:stream-differs", "a Writer closed at the same moment as three others (own input of %d bytes, own destination) produced a stream that differs from the one a lone Writer produces for that input (%s mode): first difference at byte %d of %d",
+						len(ins[g]), modeName(crc), firstDiff(r.Out, lone.Out), len(lone.Out))
+				case !decodesTo(r.Out, ins[g], crc):
+					o.Violate("aligned-close:not-decodable", "the reference decoder does not get the input back from a stream whose Writer was closed at the same moment as three others")
+				default:
+					o.Count("writers_closed_at_the_same_moment_as_others", 1)
+				}
+			}
+		}
 		o.Sample = map[string]any{"kind": "concurrent", "goroutines": 4, "inputs_per_goroutine": p.N}
 	case "interleave":
 		// two compressions and one decompression alive at the same time in one goroutine, fed in turns; before
